@@ -60,9 +60,85 @@ fn probe(i: usize) -> CaseOutcome {
     CaseOutcome::Pass(CaseReport { fingerprint: fingerprint(&format!("c09-probe{}", i)), nontrivial: true, labels: vec![format!("probe:{}", label)], counters: vec![], sample: None, evaluations: 1 })
 }
 
+/// Histories whose calls run on different trees (and different files) into one graph: what the
+/// earlier calls built must stay, re-created edges keep their attributes, equal re-assignment is
+/// accepted, a different value fails, and new nodes are numbered after the existing ones.
+/// `v` = bit 0-2: mode of call 1-3 (1 = lazy), bit 3: the third call assigns a different value.
+fn multi_tree_probe(v: usize) -> CaseOutcome {
+    let sources = ["a = 1\n", "def f(): pass\nb = 2\n", "pass\npass\npass\n"];
+    let conflict = v & 8 != 0;
+    let files = [
+        "(module) @m {\n  node x\n  node y\n  edge x -> y\n  attr (x) name = \"first\"\n  attr (x -> y) k = 1\n  attr (y) idx = (named-child-count @m)\n}\n".to_string(),
+        "global n0\nglobal n1\n(module) @m {\n  node z\n  edge n0 -> n1\n  attr (n0 -> n1) k = 1\n  attr (n0 -> n1) j = 2\n  edge n1 -> z\n  attr (n0) name = \"first\"\n  attr (z) idx = (named-child-count @m)\n}\n".to_string(),
+        format!("global n0\nglobal n1\nglobal n2\n(module) @m {{\n  node w\n  edge n0 -> n1\n  edge n1 -> n2\n  edge w -> n0\n  attr (n0 -> n1) k = {}\n  attr (w) idx = (named-child-count @m)\n  attr (n2) idx = 2\n}}\n", if conflict { 2 } else { 1 }),
+    ];
+    let trees: Vec<_> = sources.iter().map(|s| pysrc::parse(s)).collect();
+    let indexes: Vec<_> = trees.iter().map(|t| TreeIndex::new(t)).collect();
+    let mut graph = Graph::new();
+    let int = |i: u32| CVal::Int(i);
+    let attrs = |kv: &[(&str, CVal)]| kv.iter().map(|(k, v)| (k.to_string(), v.clone())).collect::<BTreeMap<String, CVal>>();
+    let mut expected: Vec<MGraph> = vec![];
+    let mut g = MGraph::default();
+    g.nodes.push(MNode { attrs: attrs(&[("name", CVal::Str("first".into()))]), edges: [(1usize, attrs(&[("k", int(1))]))].into_iter().collect() });
+    g.nodes.push(MNode { attrs: attrs(&[("idx", int(1))]), edges: BTreeMap::new() });
+    expected.push(g.clone());
+    g.nodes[0].edges.get_mut(&1).unwrap().insert("j".into(), int(2));
+    g.nodes[1].edges.insert(2, BTreeMap::new());
+    g.nodes.push(MNode { attrs: attrs(&[("idx", int(2))]), edges: BTreeMap::new() });
+    expected.push(g.clone());
+    g.nodes.push(MNode { attrs: attrs(&[("idx", int(3))]), edges: [(0usize, BTreeMap::new())].into_iter().collect() });
+    expected.push(g.clone());
+    let mut history = vec![];
+    for call in 0..3 {
+        let lazy = v >> call & 1 == 1;
+        let mode = if lazy { "lazy" } else { "strict" };
+        let dsl = &files[call];
+        history.push(json!({"call": call, "mode": mode, "dsl": dsl, "source": sources[call]}));
+        let failure = |sig: &str, msg: String, history: &Vec<serde_json::Value>| CaseOutcome::Fail(Failure::new(format!("C09:{}:multi-tree:{}", mode, sig), msg, json!({"history": history, "variant": v})));
+        let file = match load_valid("C09", dsl) {
+            Ok(f) => f,
+            Err(o) => return o,
+        };
+        let mut globals = BTreeMap::new();
+        for i in 0..call + 1 {
+            if call > 0 {
+                globals.insert(format!("n{}", i), CVal::GNode(i));
+            }
+        }
+        let flag = CountingFlag::with_cap(100_000);
+        let outcome = execute_into(&file, &mut graph, &trees[call], &indexes[call], sources[call], &globals, &ExecOpts { lazy, debug: None }, &flag);
+        let obs = match observe(&graph, &indexes[call]) {
+            Ok(o) => o,
+            Err(e) => return failure("structure", format!("after call {} the graph is structurally inconsistent: {}", call, e), &history),
+        };
+        match outcome {
+            ExecOutcome::Panic(p) => return failure(&p.signature(), format!("execute_into panicked in call {}: {}", call, p.message), &history),
+            ExecOutcome::PollBound(_) => return failure("poll-bound", format!("call {} polled more than 100000 times", call), &history),
+            ExecOutcome::Err(e) => {
+                if call == 2 && conflict && variant_name(root_cause(&e)) == "DuplicateAttribute" {
+                    if obs.nodes.len() < 3 {
+                        return failure("nodes-lost", format!("the failed call removed graph nodes (3 -> {})", obs.nodes.len()), &history);
+                    }
+                    continue;
+                }
+                return failure(&format!("unexpected-error:{}", variant_name(root_cause(&e))), format!("call {} ({}) failed: {}", call, mode, e), &history);
+            }
+            ExecOutcome::Ok => {
+                if call == 2 && conflict {
+                    return failure("missing-error:DuplicateAttribute", format!("call 2 ({}) assigns k = 2 to an edge whose k is 1 and succeeded; graph {}", mode, obs.to_json()), &history);
+                }
+                if obs != expected[call] {
+                    return failure("graph-differs", format!("after call {} ({}) the graph is not the previous graph plus what the file adds: expected {} got {}", call, mode, expected[call].to_json(), obs.to_json()), &history);
+                }
+            }
+        }
+    }
+    CaseOutcome::Pass(CaseReport { fingerprint: fingerprint(&format!("c09-multi-tree{}", v)), nontrivial: true, labels: vec![format!("probe:multi-tree-history:{}", if conflict { "conflicting-third-call" } else { "three-successful-calls" })], counters: vec![], sample: Some(json!({"history": history})), evaluations: 3 })
+}
+
 pub fn case(tape: &[u32]) -> CaseOutcome {
     if tape.len() == 2 && tape[0] == PROBE_TAG {
-        return probe(tape[1] as usize);
+        return if tape[1] >= 8 { multi_tree_probe(tape[1] as usize - 8) } else { probe(tape[1] as usize) };
     }
     let (aux, main) = split_tape(tape);
     let mut t = Tape::new(&aux);
@@ -269,16 +345,16 @@ pub fn case(tape: &[u32]) -> CaseOutcome {
 
 pub fn spec(tier: &str) -> Spec {
     let mut s = Spec::new("C09", tier, 4_000, 50_000, 1500);
-    s.rule = "histories on one Graph: optionally pre-populated through the public API (1-5 nodes, attributed nodes and edges), then 1-3 execute_into calls, each with its own generated collision-heavy program (shared anchor nodes, repeated edge statements, re-assigned attributes; lazy calls stay in the order-insensitive fragment), mode chosen per call, and 1-3 of the graph's existing nodes passed back in as GraphNode globals; one tree per history. Oracle: the reference interpreter advances a map/set model of the graph from the state before the call; after a successful call the observed graph must be isomorphic to the model with all pre-existing nodes fixed in place (so every existing node, edge and attribute value is intact and new nodes are numbered after them) and iter_edges must be strictly ascending; a call the model says must fail must fail; after a failed call only structural invariants are checked and the model is re-synchronised. Eight fixed probes (an attribute for a missing edge whose source has other edges below / above / around the missing sink, a repeated edge statement; strict and lazy). Non-trivial: one edge created by >=2 statements/matches, or a later call (or a call on a pre-populated attributed edge) that re-creates an existing edge or re-assigns an attribute. Distinct = fingerprint of the whole history.".into();
-    s.assumptions = vec!["all calls of one history use the same tree (syntax-node references are resolved through one tree index)".into(), "graph state after a failed execute_into is unspecified beyond structural consistency".into()];
+    s.rule = "histories on one Graph: optionally pre-populated through the public API (1-5 nodes, attributed nodes and edges), then 1-3 execute_into calls, each with its own generated collision-heavy program (shared anchor nodes, repeated edge statements, re-assigned attributes; lazy calls stay in the order-insensitive fragment), mode chosen per call, and 1-3 of the graph's existing nodes passed back in as GraphNode globals; generated histories use one tree, sixteen fixed histories use a different tree and file per call. Oracle: the reference interpreter advances a map/set model of the graph from the state before the call; after a successful call the observed graph must be isomorphic to the model with all pre-existing nodes fixed in place (so every existing node, edge and attribute value is intact and new nodes are numbered after them) and iter_edges must be strictly ascending; a call the model says must fail must fail; after a failed call only structural invariants are checked and the model is re-synchronised. Eight fixed probes (an attribute for a missing edge whose source has other edges below / above / around the missing sink, a repeated edge statement; strict and lazy) and sixteen fixed three-call histories over three different trees and files (every strict/lazy combination; re-created edge keeps its attributes, equal re-assignment accepted, tree-dependent attribute values, new nodes numbered after the old; in eight of them the third call assigns a different value and must fail with DuplicateAttribute). Non-trivial: one edge created by >=2 statements/matches, or a later call (or a call on a pre-populated attributed edge) that re-creates an existing edge or re-assigns an attribute. Distinct = fingerprint of the whole history.".into();
+    s.assumptions = vec!["all calls of one generated history use the same tree (syntax-node references are resolved through one tree index); histories over different trees are the sixteen fixed ones, which store no syntax-node values".into(), "graph state after a failed execute_into is unspecified beyond structural consistency".into()];
     s
 }
 
 pub fn run_check(tier: &str) -> i32 {
     let started = std::time::Instant::now();
     let spec = spec(tier);
-    let probes: Vec<usize> = (0..8).collect();
-    let rp = run_fixed(&spec, &probes, |i| probe(*i), |i| vec![PROBE_TAG, *i as u32]);
+    let probes: Vec<usize> = (0..24).collect();
+    let rp = run_fixed(&spec, &probes, |i| if *i >= 8 { multi_tree_probe(*i - 8) } else { probe(*i) }, |i| vec![PROBE_TAG, *i as u32]);
     let result = merge_results(rp, run_tapes(&spec, case));
     finish(&spec, result, started)
 }
